@@ -34,7 +34,11 @@ def _extract_tests(text):
         desc = k.group(2) if k else ""
         fn = re.search(r"fn (kani_concrete_playback_\w+)\(", code)
         if fn:
-            out.append((kind, desc, fn.group(1), code))
+            # drop Kani's doc comment: a multi-line assertion message leaves an uncommented line in it
+            t = code.find("#[test]")
+            body = code[t:] if t >= 0 else code
+            header = "// Kani concrete playback for `%s`: check kind `%s`: %s\n" % (m.group(1), kind, desc.replace("\n", " ")[:200])
+            out.append((kind, desc, fn.group(1), header + body))
     return out
 
 
